@@ -469,6 +469,21 @@ fn op_polyn_translate(c: &Value) -> Vec<u64> {
     p.0.iter().map(|x| x.to_bits()).collect()
 }
 
+// integral of a log-polynomial through a knot, then evaluated at several points:
+// result = numbers of the integral form ++ [F(t) for t in ts]
+fn op_log_integral<T: HasIntegral + Num>(c: &Value) -> Vec<u64>
+where
+    T::IntegralOf: Num + Evaluate,
+{
+    let p = T::of(&u64s(&c["cs"]));
+    let int = if c.get("knot").map(|k| !k.is_null()).unwrap_or(false) { p.integral(knot_of(c)) } else { p.indefinite() };
+    let mut o = out1(&int);
+    for &t in u64s(&c["ts"]).iter() {
+        o.push(int.evaluate(f(t)).to_bits());
+    }
+    o
+}
+
 // Arbitrary: result is [0] for Err, or [1, n, end, piece..., ...]
 fn op_arbitrary<T: Num + for<'a> arbitrary::Arbitrary<'a>>(c: &Value) -> Vec<u64> {
     let bytes: Vec<u8> = u64s(&c["bytes"]).iter().map(|&b| b as u8).collect();
@@ -614,6 +629,7 @@ fn run_case(c: &Value) -> Vec<u64> {
         "pw_translate" => t_all!(ty; op_pw_translate(c)),
         "pw_add" => op_pw_add(c),
         "pw_sub" => op_pw_sub(c),
+        "integral_eval" => t_integrable!(ty; op_log_integral(c)),
         "linear" => op_linear(c),
         "spline" => op_spline(c),
         "polyn_eval" => op_polyn_eval(c),
